@@ -30,6 +30,7 @@ type Options struct {
 	Prop    string
 	Tier    string // quick | thorough
 	Seed    uint64
+	Seeds   []uint64 // thorough: several seeds, budget split evenly; evidence aggregated
 	Runs    int // 0 = engine default for the tier
 	BudgetS int // >0: wall-clock budget, stop scheduling new runs afterwards
 	Workers int
@@ -179,36 +180,28 @@ func selfExe() string {
 	return p
 }
 
-// Run is the orchestrator: forks workers, merges their reports, minimises and
-// replays the first violation, writes the evidence file. Returns the exit code
-// (0 held, 1 violation, 2 harness trouble).
-func Run(opt Options) int {
-	start := time.Now()
-	e := EngineFor(opt.Prop)
-	if e == nil {
-		fmt.Fprintf(os.Stderr, "HARNESS: no engine serves property %s\n", opt.Prop)
-		return 2
-	}
-	desc := e.Describe(opt.Prop)
-	if opt.Workers <= 0 {
-		opt.Workers = runtime.NumCPU()
-	}
-	if opt.Runs <= 0 && opt.BudgetS <= 0 {
-		opt.Runs = desc.QuickRuns
-	}
-	ff, err := LoadFindings()
-	if err != nil {
-		fmt.Fprintf(os.Stderr, "HARNESS: %v\n", err)
-		return 2
-	}
+// batch is the merged outcome of all workers of one seed.
+type batch struct {
+	total    *WorkerStats
+	states   map[string]struct{}
+	hashes   map[uint64]struct{}
+	vio      *Violation
+	vioIdx   int
+	vioSeed  uint64
+	trouble  string
+}
 
-	fmt.Printf("VERIF_SEED=%d property=%s engine=%s tier=%s runs=%d budget_s=%d workers=%d\n",
-		opt.Seed, opt.Prop, e.Name(), opt.Tier, opt.Runs, opt.BudgetS, opt.Workers)
+func newBatch() *batch {
+	return &batch{total: &WorkerStats{Faults: map[string]int{}, Probes: map[string]int{}, Known: map[string]int{}, KnownEx: map[string]string{}},
+		states: map[string]struct{}{}, hashes: map[uint64]struct{}{}, vioIdx: -1}
+}
 
+// runSeed forks the workers of one seed and merges their reports into b.
+func runSeed(opt Options, e Engine, b *batch) {
 	tmp, err := os.MkdirTemp(filepath.Join(VerifDir(), "build"), "run-")
 	if err != nil {
-		fmt.Fprintf(os.Stderr, "HARNESS: %v\n", err)
-		return 2
+		b.trouble = err.Error()
+		return
 	}
 	defer os.RemoveAll(tmp)
 
@@ -228,13 +221,7 @@ func Run(opt Options) int {
 	}
 	wg.Wait()
 
-	// Merge.
-	total := &WorkerStats{Faults: map[string]int{}, Probes: map[string]int{}, Known: map[string]int{}, KnownEx: map[string]string{}}
-	states := map[string]struct{}{}
-	hashes := map[uint64]struct{}{}
-	var firstVio *Violation
-	firstVioIdx := -1
-	trouble := ""
+	total := b.total
 	for w, r := range results {
 		if r.stats != nil {
 			total.Runs += r.stats.Runs
@@ -254,7 +241,7 @@ func Run(opt Options) int {
 				}
 			}
 			for _, s := range r.stats.States {
-				states[s] = struct{}{}
+				b.states[s] = struct{}{}
 			}
 			if len(total.Samples) < 3 {
 				total.Samples = append(total.Samples, r.stats.Samples...)
@@ -264,33 +251,81 @@ func Run(opt Options) int {
 			}
 			if raw, err := os.ReadFile(filepath.Join(tmp, fmt.Sprintf("h%d", w))); err == nil {
 				for i := 0; i+8 <= len(raw); i += 8 {
-					hashes[binary.LittleEndian.Uint64(raw[i:])] = struct{}{}
+					b.hashes[binary.LittleEndian.Uint64(raw[i:])] = struct{}{}
 				}
 			}
 		}
-		if r.vio != nil && (firstVioIdx < 0 || r.vioIdx < firstVioIdx) {
-			firstVio, firstVioIdx = r.vio, r.vioIdx
+		if r.vio != nil && b.vio == nil || (r.vio != nil && b.vioSeed == opt.Seed && r.vioIdx < b.vioIdx) {
+			b.vio, b.vioIdx, b.vioSeed = r.vio, r.vioIdx, opt.Seed
 		}
 		if !r.finished && r.vio == nil {
 			// Worker died without a verdict: re-execute that index alone.
 			v, msg := rerunCrashed(opt, e, r.lastIdx)
 			if v != nil {
-				if firstVioIdx < 0 || r.lastIdx < firstVioIdx {
-					firstVio, firstVioIdx = v, r.lastIdx
+				if b.vio == nil || (b.vioSeed == opt.Seed && r.lastIdx < b.vioIdx) {
+					b.vio, b.vioIdx, b.vioSeed = v, r.lastIdx, opt.Seed
 				}
 			} else {
-				trouble = fmt.Sprintf("worker %d died at run %d without a verdict (%v): %s; stderr: %s",
+				b.trouble = fmt.Sprintf("worker %d died at run %d without a verdict (%v): %s; stderr: %s",
 					w, r.lastIdx, r.exitErr, msg, tail(r.stderr, 1500))
 			}
 		}
 	}
+}
+
+// Run is the orchestrator: forks workers (per seed), merges their reports,
+// minimises and replays the first violation, writes the evidence file.
+// Returns the exit code (0 held, 1 violation, 2 harness trouble).
+func Run(opt Options) int {
+	start := time.Now()
+	e := EngineFor(opt.Prop)
+	if e == nil {
+		fmt.Fprintf(os.Stderr, "HARNESS: no engine serves property %s\n", opt.Prop)
+		return 2
+	}
+	desc := e.Describe(opt.Prop)
+	if opt.Workers <= 0 {
+		opt.Workers = runtime.NumCPU()
+	}
+	if opt.Runs <= 0 && opt.BudgetS <= 0 {
+		opt.Runs = desc.QuickRuns
+	}
+	if len(opt.Seeds) == 0 {
+		opt.Seeds = []uint64{opt.Seed}
+	}
+	opt.Seed = opt.Seeds[0]
+	ff, err := LoadFindings()
+	if err != nil {
+		fmt.Fprintf(os.Stderr, "HARNESS: %v\n", err)
+		return 2
+	}
+
+	b := newBatch()
+	totalBudget := opt.BudgetS
+	for i, seed := range opt.Seeds {
+		o := opt
+		o.Seed = seed
+		if totalBudget > 0 {
+			o.BudgetS = totalBudget / len(opt.Seeds)
+		}
+		fmt.Printf("VERIF_SEED=%d property=%s engine=%s tier=%s runs=%d budget_s=%d workers=%d (seed %d of %d)\n",
+			seed, opt.Prop, e.Name(), opt.Tier, o.Runs, o.BudgetS, opt.Workers, i+1, len(opt.Seeds))
+		runSeed(o, e, b)
+		if b.vio != nil || b.trouble != "" {
+			break
+		}
+	}
+	total, states, hashes := b.total, b.states, b.hashes
+	firstVio, firstVioIdx, trouble := b.vio, b.vioIdx, b.trouble
 
 	exit := 0
 	violations := 0
 	replayPath := ""
 	if firstVio != nil {
 		violations = 1
-		p, code := shrinkAndReplay(opt, firstVioIdx)
+		o := opt
+		o.Seed = b.vioSeed
+		p, code := shrinkAndReplay(o, firstVioIdx)
 		replayPath = p
 		if code == 2 {
 			trouble = "violation did not replay deterministically (harness trouble): " + firstVio.Signature
@@ -309,9 +344,6 @@ func Run(opt Options) int {
 			fmt.Printf("NOTE: open known finding not reproduced in this batch: %s\n", f.Signature)
 		}
 	}
-	for _, k := range sortedKeys(total.Probes) {
-		_ = k
-	}
 
 	wall := time.Since(start).Seconds()
 	if err := writeEvidence(opt, e, desc, total, len(states), len(hashes), wall, violations, firstVio, replayPath); err != nil {
@@ -323,11 +355,6 @@ func Run(opt Options) int {
 		total.Runs, total.Events, total.NonTrivial, len(hashes), len(states), total.Resyncs, wall, float64(total.Runs)/wall*3600)
 	fmt.Printf("faults: %s\n", fmtCounts(total.Faults))
 	fmt.Printf("probes: %s\n", fmtCounts(total.Probes))
-	for _, k := range sortedKeys(total.Probes) {
-		if total.Probes[k] == 0 {
-			fmt.Printf("WARNING: probe %s stuck at 0\n", k)
-		}
-	}
 
 	if trouble != "" {
 		fmt.Fprintf(os.Stderr, "HARNESS: %s\n", trouble)
